@@ -327,8 +327,9 @@ class C02(ScheduleEnumerationMixin, EngineCheck):
         def candidate_failures(draw):
             # a candidate abandoned while helper tasks / shared nodes are at every stage
             case = draw(st.one_of(shared_between_candidates_templates(tier), candidate_lazy_failure_templates(tier),
-                                  nested_containment_templates(tier)))
-            case['scheds'] = case['scheds'][:10:3] + case['scheds'][10:]
+                                  nested_containment_templates(tier), case_also_plain_templates(tier)))
+            case['scheds'] = case['scheds'][:10:3] + case['scheds'][10:] if case.get('template') != 'case-also-plain' \
+                else case['scheds']
             case['collab'] = draw(collabs())
             return case
 
@@ -843,6 +844,47 @@ def switch_in_recurrent_templates(draw, tier):
 
 
 @st.composite
+def case_also_plain_templates(draw, tier):
+    """directed shape: the selected case of a switch is ALSO a plain input of another node (so the main graph starts
+    it on its own, before the switch is resolved); the consumer of the switch is not a direct successor of the case.
+    The case (or the decider) is held back and released at every position: both orders 'switch resolved while its
+    case is still running' and 'case finished first' are reached."""
+    def N(nid, params=(), mode='gated', **kw):
+        d = {'id': nid, 'params': [list(p) for p in params], 'mode': mode}
+        d.update(kw)
+        return d
+    ext = st.sampled_from(['gated', 'gated', 'gated', 'thread', 'coro'])
+    nodes = [N('n0', mode=draw(st.sampled_from(['coro', 'inline', 'gated'])))]
+
+    def add(params, **kw):
+        nid = f'n{len(nodes)}'
+        nodes.append(N(nid, params, mode=draw(ext), **kw))
+        return nid
+
+    def chain(src, k):
+        for _ in range(k):
+            src = add([('k0', ['in', src])])
+        return src
+
+    dec = chain('n0', draw(st.integers(1, 2)))
+    c = chain('n0', draw(st.integers(1, 2)))
+    other = add([('k0', ['in', 'n0'])])
+    cons = add([('k0', ['sw', 'sw_c' if draw(st.booleans()) else None, dec, [['L0', c], ['L1', other]]])])
+    cons = chain(cons, draw(st.integers(0, 1)))
+    params = [('k0', ['in', cons]), ('k1', ['in', c])]
+    if draw(st.booleans()):
+        params = [('k0', ['in', c]), ('k1', ['in', cons])]
+    out = add(params)
+    prog = {'nodes': nodes, 'output': out}
+    var = {'x': 0, 'nodes': {dec: {'label': draw(st.sampled_from(['L0', 'L0', 'L0', 'L1']))}}}
+    if draw(st.integers(0, 5)) == 0:
+        var['nodes'][c] = {'outcomes': [], 'tail': 'ErrA'}
+    held = draw(st.sampled_from([c, c, dec]))
+    scheds = [{'kind': 'delay', 'node': held, 'after': k} for k in range(0, 8)]
+    return {'program': prog, 'variant': var, 'scheds': scheds, 'template': 'case-also-plain'}
+
+
+@st.composite
 def same_decider_templates(draw, tier):
     """directed shape: two DIFFERENT switches (unnamed, or named differently) driven by the same decision node, with
     different case nodes and possibly different label sets, consumed by two nodes or by two parameters of one node.
@@ -1036,7 +1078,8 @@ class C09(EngineCheck):
             return case
 
         return st.one_of(base, base, base, base, base, base, undeclared_label(),
-                         switch_in_recurrent_templates(tier), same_decider_templates(tier))
+                         switch_in_recurrent_templates(tier), same_decider_templates(tier),
+                         case_also_plain_templates(tier))
 
     def oracle(self, case, refres, obs):
         v = []
